@@ -59,7 +59,7 @@ STEP_K = 400
 UNIT_BASE = 2000
 UNIT_PER_COEFF = 2
 
-N_RANDOM = {"quick": 36000, "thorough": 2400000}
+N_RANDOM = {"quick": 36000, "thorough": 800000}
 N_SHARDS = {"quick": 16, "thorough": 64}
 
 _MON = {"ctx": None, "guard": None, "rebinds": {}, "sc": None, "coeffs": 0, "iwd_calls": 0, "parse_infos": 0,
@@ -410,7 +410,7 @@ def floor(agg, tier):
     s = agg["sets"]
     miss = []
     q = tier == "quick"
-    need_acc, need_rej = (2000, 15000) if q else (100000, 800000)
+    need_acc, need_rej = (2000, 15000) if q else (40000, 300000)
     if c.get("accepted", 0) < need_acc:
         miss.append("fewer than %d accepted streams (%d)" % (need_acc, c.get("accepted", 0)))
     if c.get("rejected", 0) < need_rej:
@@ -424,7 +424,7 @@ def floor(agg, tier):
     for h in ("read_bitb", "flush_inputb", "parse_info", "initialize_wavelet_data"):
         if c.get("hook_calls:" + h, 0) == 0:
             miss.append("hook %s never called" % h)
-    if c.get("armed_cases", 0) < (4000 if q else 1000000):
+    if c.get("armed_cases", 0) < (4000 if q else 400000):
         miss.append("too few cases ran under the step counter (%d)" % c.get("armed_cases", 0))
     if c.get("seeds_accepted", 0) < 50:
         miss.append("fewer than 50 corpus seeds validated (%d)" % c.get("seeds_accepted", 0))
